@@ -238,7 +238,7 @@ func TestC29(t *testing.T) {
 	defer r.Finish()
 	r.Rule("each case: fresh in-memory KV with 3 orgs × (2 user + 2 system buckets, 2 tokens), 3 users; one wrapper family (authorizer.* or tenant.Authed*/authorization.Authed*) and one caller (0–6 permissions: type-wide, org-scoped, id-scoped, org+id, read-only sets, foreign-type ids, instance; 1 in 10 inactive token, 1 in 25 no authorizer); 16 wrapped calls over every Find*/Create/Update/Delete of bucket, org, user and authorization services with targets in all orgs; ground truth read through the unwrapped services, permission needed for each target evaluated with the C28 reference predicate; checks: every returned resource readable, mutation by a caller lacking the write permission (or, for tokens, any granted permission) fails, and a denied call leaves the full KV dump byte-identical; non-trivial = the history contains both a permitted result and a denial; distinct = (caller, calls)")
 	ctxBare := context.Background()
-	n := r.N(300, 20000)
+	n := r.N(3000, 40000)
 	for cno := 0; cno < n; cno++ {
 		rg := r.Rand(cno)
 		w := c29NewWorld(t, rg)
@@ -597,6 +597,36 @@ func TestC29(t *testing.T) {
 				}
 				if len(grant) > 3 {
 					grant = grant[:3]
+				}
+				// the same resource twice with different actions (read + write on one bucket is what a
+				// UI offers): each entry has to be held on its own, in either order
+				if rg.Chance(1, 3) {
+					var base influxdb.Permission
+					if len(caller.perms) > 0 && rg.Chance(3, 4) {
+						base = vkit.Pick(rg, caller.perms)
+					} else if gp := c29GenPerms(rg, w); len(gp) > 0 {
+						base = gp[0]
+					}
+					if base.Resource.Type != "" {
+						other := base
+						other.Action = influxdb.WriteAction
+						if base.Action == influxdb.WriteAction {
+							other.Action = influxdb.ReadAction
+						}
+						pair := []influxdb.Permission{base, other}
+						if rg.Bool() {
+							pair[0], pair[1] = pair[1], pair[0]
+						}
+						if len(grant) > 1 {
+							grant = grant[:1]
+						}
+						if rg.Bool() {
+							grant = append(pair, grant...)
+						} else {
+							grant = append(grant, pair...)
+						}
+						r.Event("token_creation_same_resource_two_actions", 1)
+					}
 				}
 				aorg := org
 				if len(grant) > 0 && grant[0].Resource.OrgID != nil && rg.Chance(3, 4) {
